@@ -77,5 +77,15 @@ def main():
     sys.exit(rc)
 
 
+def _cleanup():
+    import shutil
+    import core
+    if os.environ.get("VERIF_KEEP_WORK") != "1":
+        shutil.rmtree(core.WORK, ignore_errors=True)
+
+
+import atexit  # noqa: E402
+atexit.register(_cleanup)
+
 if __name__ == "__main__":
     main()
